@@ -19,6 +19,8 @@ type linkRow struct {
 	mods  map[string]string
 	want  string
 	entry string // "" = main
+	// reject: the program must receive an error-level diagnostic (a faulty import)
+	reject bool
 }
 
 var linkRows = []linkRow{
@@ -52,6 +54,17 @@ var linkRows = []linkRow{
 	{name: "entry-is-not-called-main-and-sorts-first", want: "entry 7\n", entry: "app", mods: map[string]string{
 		"app":  "import { seven } from main;\nfn main() { println(\"entry\", seven()); }\n",
 		"main": "pub fn seven() -> int { 7 }\npub fn main() { println(\"library called main\"); }\n"}},
+	// module names are names: two that differ only in the case of a letter are two modules
+	{name: "module-names-differing-in-case", want: "upper 1\nlower 101\nupper 2\n", mods: map[string]string{
+		"main":   "import { describe } from Lights;\nimport { tell } from lights;\nfn main() { describe(); tell(); describe(); }\n",
+		"Lights": "let n = 0;\npub fn describe() { n += 1; println(\"upper\", n); }\nfn main() {}\n",
+		"lights": "let n = 100;\npub fn tell() { n += 1; println(\"lower\", n); }\nfn main() {}\n"}},
+	{name: "mixed-case-module-name", want: "Mixed 7\n", mods: map[string]string{
+		"main":      "import { seven } from MixedCase;\nfn main() { println(\"Mixed\", seven()); }\n",
+		"MixedCase": "pub fn seven() -> int { 7 }\nfn main() {}\n"}},
+	{name: "missing-module-that-exists-in-another-case", reject: true, mods: map[string]string{
+		"main":   "import { tell } from LIGHTS;\nfn main() { tell(); }\n",
+		"lights": "pub fn tell() { println(\"lower\"); }\nfn main() {}\n"}},
 	{name: "closure-callback-calls-back-into-the-library", want: "100 1\n", mods: map[string]string{
 		"main": "import { run, get, bump } from b;\nlet counter = 100;\nfn main() { let cb = fn() { bump(); }; run(cb); println(counter, get()); }\n",
 		"b":    "let counter = 0;\npub fn bump() { counter += 1; }\npub fn run(cb: fn() -> null) { cb(); }\npub fn get() -> int { counter }\nfn main() {}\n"}},
@@ -169,6 +182,15 @@ func TestTableLinking(t *testing.T) {
 			Expect: &px.Exp{Writes: writes, Outcome: hs.Outcome{Class: "ok"}}}
 		pk.Eval()
 		pk.NonTrivial(c.Note, map[string]any{"row": r.name})
+		if r.reject {
+			resp := px.Pool().Exec(&sb.Request{Op: "analyze", Modules: c.Modules, Entry: entry})
+			var f *pk.Failure
+			if f = px.SandboxFailure("link", resp); f == nil && !resp.Inconclusive && len(resp.SyntaxErrors) == 0 && len(errorsOf(resp.Diags)) == 0 {
+				f = pk.Failf("link", "faulty-import-accepted:"+r.name, "no error-level diagnostic for %s\n%s", c.Note, px.ProgText(c))
+			}
+			col.Report(c, f)
+			continue
+		}
 		col.Report(c, checkLink(c))
 	}
 	pk.Exhaustive("table-linking")
